@@ -433,6 +433,8 @@ func (vt *Model) il(ps int) {
 
 	if int(vt.margin.bottom-vt.cursor.row) < (ps - 1) {
 		ps = int(vt.margin.bottom - vt.cursor.row)
+		// the cursor's own line counts as well
+		ps += 1
 	}
 
 	// move the lines first
@@ -478,6 +480,8 @@ func (vt *Model) dl(ps int) {
 
 	if int(vt.margin.bottom-vt.cursor.row) < (ps - 1) {
 		ps = int(vt.margin.bottom - vt.cursor.row)
+		// the cursor's own line counts as well
+		ps += 1
 	}
 
 	for r := vt.cursor.row; r <= vt.margin.bottom; r += 1 {
